@@ -18,7 +18,7 @@ def cases(tier, seed):
         subs = [(t,) for t in tn] + (list(itertools.combinations(tn, 2)) if tier != "quick" or len(tn) <= 3 else [tuple(tn[:2])])
         for sub in subs:
             out.append(dict(solver="sq", form="scalar", model=name, terms=list(sub), seed=seed))
-    for form in ("matrix-diag-block", "matrix-offdiag-blocks"):
+    for form in ("matrix-diag-block", "matrix-offdiag-blocks", "matrix-diag-block-degenerate"):
         for y in ("jc", "rabi", "mixed"):
             out.append(dict(solver="sq", form=form, y=y, seed=seed))
     return out
@@ -85,7 +85,21 @@ def run(case):
         off01, off10 = (N + 1) * a + Dagger(a) ** 2 + 2, Dagger(a) * (N + 1) + a**2 + 2
     interior = sp.interior([2], [2])
     cols2 = np.concatenate([interior, interior + n])
-    if case["form"] == "matrix-diag-block":
+    if case["form"] == "matrix-diag-block-degenerate":
+        # two internal levels with identical unperturbed energy, coupled by number-changing terms
+        h = N + N**2 / 9
+        y01 = {"jc": a + 2 * Dagger(a), "rabi": a**2 + 3 * Dagger(a), "mixed": (N + 1) * a + 2 * Dagger(a) ** 2}[case["y"]]
+        Y = sympy.Matrix([[a + Dagger(a), y01], [Dagger(y01), -(a**2 + Dagger(a) ** 2)]])
+        Yn = Y.applyfunc(lambda x: NumberOrderedForm.from_expr(x, [a]))
+        solve = solve_sylvester_2nd_quant(([h, h],))
+        X = solve(Yn, (0, 0))
+        xm = to_matrix(sp, X, 2)
+        hm = to_matrix(sp, sympy.Matrix([[h, 0], [0, h]]), 2)
+        ym = to_matrix(sp, Y, 2)
+        res = (hm @ xm - xm @ hm - ym)[:, cols2]
+        if not np.isfinite(xm).all() or np.abs(res).max() > 1e-8 * max(1.0, np.abs(ym).max()):
+            V.append(f"matrix-valued block with degenerate internal levels: H X - X H != Y (residual {np.abs(res).max():.3g})")
+    elif case["form"] == "matrix-diag-block":
         Y = sympy.Matrix([[a + Dagger(a), off01], [off10, -(a**2 + Dagger(a) ** 2)]])
         Yn = Y.applyfunc(lambda x: NumberOrderedForm.from_expr(x, [a]))
         solve = solve_sylvester_2nd_quant(([hup, hdn],))
